@@ -656,6 +656,13 @@ func (s *dbSuite) exec(line string) string {
 	case "get":
 		e, err := tx.Get(B(1), K(2))
 		return errOr(err, showEntry(e))
+	case "getmeta":
+		e, err := tx.Get(B(1), K(2))
+		if err != nil || e == nil {
+			return errOr(err, "nil")
+		}
+		_, _, _, ts, ttl, _, _, _, _, _ := e.VerifFields()
+		return fmt.Sprintf("ok %d/%d", ts, ttl)
 	case "getall":
 		es, err := tx.GetAll(B(1))
 		return errOr(err, showEntries(es))
@@ -1134,6 +1141,9 @@ func (s *dbSuite) genOp(r *rand.Rand, dead bool) string {
 		case 5, 6:
 			return fmt.Sprintf("del %s %s %d", hb, hx(k), now)
 		case 7, 8:
+			if r.Intn(4) == 0 && s.profile != "sparse" {
+				return fmt.Sprintf("getmeta %s %s %d", hb, hx(k), now) // the timestamp and TTL the read reports
+			}
 			return fmt.Sprintf("get %s %s %d", hb, hx(k), now)
 		case 9:
 			return fmt.Sprintf("getall %s %d", hb, now)
